@@ -18,7 +18,15 @@ FUNCS = {
         loops={0: dict(
             invariant=INV + [
                 ('stream_conserved', '%s == old(%s) + data' % (STREAM, STREAM)),
-                ('still_open_or_drained', 'not closed(self) or True'),
+                ('configuration_kept', 'length(self._peer_name) > 0 and self._config.modulate_target_ack_time is None'),
+                ('consumed_grows', 'length(ghost.rx_consumed) >= length(old(ghost.rx_consumed))'),
+                # until the first message has been taken off nothing at all has happened; afterwards the
+                # buffer as it stood on entry did start with a complete message
+                ('first_or_progressed',
+                 'ite(length(ghost.rx_consumed) == length(old(ghost.rx_consumed)), '
+                 'self._Messenger__rx_buf == old(self._Messenger__rx_buf) + data and ghost.trace == old(ghost.trace) and '
+                 'ghost.rx_consumed == old(ghost.rx_consumed) and self._in_conn == old(self._in_conn), '
+                 'p_ok(old(self._in_conn), old(self._Messenger__rx_buf) + data))'),
             ],
             ghost_begin=['_b0 = self._Messenger__rx_buf'],
             ghost_end=['ghost.rx_consumed = ghost.rx_consumed + slice(_b0, 0, length(_b0) - length(self._Messenger__rx_buf))'],
@@ -33,7 +41,8 @@ FUNCS = {
              'ghost.rx_consumed == old(ghost.rx_consumed))', ['C07']),
             # every complete message in the buffer has been acted on: what is kept is not (yet) a complete message
             ('complete_messages_acted_on',
-             'length(self._Messenger__rx_buf) == 0 or not p_ok(self._in_conn, self._Messenger__rx_buf)', ['C07']),
+             'closed(self) or length(self._Messenger__rx_buf) == 0 or '
+             'not p_ok(self._in_conn, self._Messenger__rx_buf)', ['C07']),
         ],
     ),
 }
